@@ -202,6 +202,7 @@ impl<T> Iterator for ProbeIter<T> {
 }
 
 /// Counts `next()` calls on any signal (and `is_exhausted` queries) without changing it.
+#[derive(Clone)]
 pub struct Counted<S> {
     pub inner: S,
     pub pulls: Pulls,
